@@ -334,7 +334,14 @@ class StartStageHandler(
         # WCP-16: Deferred choice - check if a sibling already claimed this group
         # Query the database directly because retrieve_stage() only loads
         # upstreams, not siblings in the same deferred_choice_group.
-        if stage.deferred_choice_group and self._is_deferred_choice_claimed(stage):
+        # A zombie (RUNNING without tasks: its claimer died before planning) already
+        # won the choice and holds the claim row; a sibling it cancelled must not
+        # make it cancel itself, or the whole group ends CANCELED.
+        if (
+            stage.deferred_choice_group
+            and stage.status == WorkflowStatus.NOT_STARTED
+            and self._is_deferred_choice_claimed(stage)
+        ):
             logger.info(
                 "Deferred choice: sibling in group '%s' already claimed, cancelling %s",
                 stage.deferred_choice_group,
